@@ -159,4 +159,23 @@ theorem buildTable_keys (ps : List (Bytes × Bytes)) (hn : (ps.map (·.1)).Nodup
   unfold buildTable
   exact tableOfList_keys _ (((sorted_perm ps).map (·.1)).nodup_iff.mpr hn)
 
+theorem skeEncrypt_ok {ske : AESxCBC} {lv : Leaves} {key msg : Bytes} {t t' : Tape} {c : Bytes}
+    (h : skeEncrypt ske lv key msg t = .ok (c, t')) :
+    ∃ iv, takeBytes 16 t = .ok (iv, t') ∧ ske.encrypt lv.E key iv msg = .ok c := by
+  unfold skeEncrypt at h
+  split at h
+  · cases h
+  · simp only [bind, Except.bind] at h
+    split at h
+    · cases h
+    · rename_i r hr
+      obtain ⟨iv, t1⟩ := r
+      simp only at h
+      split at h
+      · cases h
+      · rename_i d hd
+        simp only [pure, Except.pure] at h
+        cases h
+        exact ⟨iv, hr, hd⟩
+
 end SSEPy.Sch
